@@ -77,6 +77,7 @@ func main() {
 		fmt.Printf("loaded in %.1fs\n", loadSecs)
 	}
 	activeProp = *prop
+	repoDirForReplay = *repo
 	rep := &Report{Prop: *prop, Tier: *tier, Seed: seed, Verif: *verifDir, p: p}
 	for _, be := range p.bindErrs {
 		rep.addFailure("bind", be, "contract does not bind to the code")
@@ -214,6 +215,9 @@ func main() {
 }
 
 var loadScale = 1.0
+
+// repoDirForReplay: the tree the witness tests of known findings are run against (the -repo argument)
+var repoDirForReplay string
 
 var cleanup = func() {}
 
@@ -474,6 +478,9 @@ func witnessStillFails(verif string, k *KnownFinding) bool {
 		return true
 	}
 	cmd := exec.Command(filepath.Join(verif, "tools", "runpkgtest.sh"), k.ReplayPkg, filepath.Join(verif, k.ReplayTest), k.ReplayName)
+	if repoDirForReplay != "" {
+		cmd.Env = append(os.Environ(), "REPO="+repoDirForReplay)
+	}
 	out, _ := cmd.CombinedOutput()
 	return strings.Contains(string(out), "--- FAIL") || strings.Contains(string(out), "panic:")
 }
